@@ -1,12 +1,305 @@
 /-
 C36 — Base64 coding round-trips and decodes Basic credentials safely.
+
+  "Decoding the base64 encoding of any byte string returns it exactly.  Malformed base64 is
+   rejected without writing beyond the output size the API promises.  Basic credentials decode
+   to the user name before the first colon and the password after it."
+
+Property theorems only.  The model (`SquidModel.Base64.Codec`, `.Basic`) follows lib/base64.cc and
+src/auth/basic/Config.cc; tables and length macros are regenerated from the staged tree; lemmas
+are in `SquidModel.Base64.{Shape,Steps,Decode,Sound,Encode,Top}`.  Every statement is for all
+byte strings / all chunkings, no size bound.
 -/
-import SquidModel.Base64.Basic
+import SquidModel.Base64.Top
 
 namespace SquidModel.C36
 open SquidModel.Base64
 
-/-- "A===" (a dangling sextet followed by three pad characters) is accepted and decodes to nothing. -/
-theorem malformed_accepted_counterexample : decodeAll [65, 61, 61, 61] = some [] := by decide
+/-! ## round trip -/
+
+/-- The streaming encoder does not depend on how the input is cut into update calls: init, any
+updates, final produce `base64_encode_raw` of the concatenation. -/
+theorem encode_chunking_irrelevant (xs : List Bytes) : encodeChunks xs = encodeRaw xs.flatten := by
+  have := chunks_rel xs [] encodeInit (by simp [EncRel, encodeInit]) (by simp)
+  simpa [emitted, encodeChunks] using this
+
+/-- The streaming decoder does not depend on how the text is cut into update calls (same bytes,
+same accept/reject verdict). -/
+theorem decode_chunking_irrelevant (ys : List Bytes) : decodeChunks ys = decodeAll ys.flatten :=
+  decodeChunks_flatten ys
+
+/-- Decoding the encoding of any byte string returns it exactly — for every chunking of the
+encoder input and every (independent) chunking of the decoder input. -/
+theorem decode_encode (xs ys : List Bytes) (h : ys.flatten = encodeChunks xs) : decodeChunks ys = some xs.flatten := by
+  rw [decode_chunking_irrelevant, h, encode_chunking_irrelevant]
+  exact decodeAll_canonical _ _ (strip_noWs_id _ (noWs_encodeRaw _))
+
+/-- The same with white space (HT LF VT FF CR SP) inserted anywhere in the text. -/
+theorem decode_encode_ws (x s : Bytes) (h : strip s = encodeRaw x) : decodeAll s = some x :=
+  decodeAll_canonical s x h
+
+/-- `base64_encode_group` (any 32-bit group value; bits above 24 are ignored) agrees with
+`base64_encode_raw` on the three bytes of the group. -/
+theorem encode_group_agrees (a b c : UInt8) (hi : Nat) :
+    encodeGroup (hi * 16777216 + a.toNat * 65536 + b.toNat * 256 + c.toNat) = encodeRaw [a, b, c] :=
+  encodeGroup_raw a b c hi
+
+/-- Encoding is injective. -/
+theorem encode_injective (x y : Bytes) (h : encodeRaw x = encodeRaw y) : x = y := by
+  have hx := decodeAll_canonical (encodeRaw x) x (strip_noWs_id _ (noWs_encodeRaw _))
+  have hy := decodeAll_canonical (encodeRaw y) y (strip_noWs_id _ (noWs_encodeRaw _))
+  rw [h, hy] at hx
+  exact (Option.some.inj hx).symm
+
+/-! ## output sizes (P5) -/
+
+/-- Whatever was fed to the decoder before, one `base64_decode_update` call stores at most
+`BASE64_DECODE_LENGTH(src_length)` bytes — also when it fails part-way on malformed input. -/
+theorem decode_bound (before : List Bytes) (s : Bytes) :
+    (decodeUpdate (decodeCtxAfter decodeInit before) s).2.1.length ≤ decodeLength s.length := by
+  have hinv := dinv_after before decodeInit dinv_init
+  have := (update_inv s _ hinv).2
+  rw [decodeLength_eq]
+  have h6 := hinv.2
+  omega
+
+/-- The asserts of base64_decode_single / base64_decode_update cannot fire. -/
+theorem decode_no_assert (ctx : DecCtx) (s : Bytes) : (decodeUpdate ctx s).2.2 ≠ .assertFail :=
+  update_no_assert s ctx
+
+/-- One `base64_encode_update` call emits at most `BASE64_ENCODE_LENGTH(length)` characters, final at
+most `BASE64_ENCODE_FINAL_LENGTH`, `base64_encode_raw` exactly `BASE64_ENCODE_RAW_LENGTH(length)`. -/
+theorem encode_bound (before : List Bytes) (s : Bytes) :
+    (encodeUpdate (encodeCtxAfter encodeInit before) s).2.length ≤ encodeLength s.length ∧
+    (encodeFinal (encodeCtxAfter encodeInit before)).2.length ≤ encodeFinalLength ∧
+    (encodeRaw s).length = encodeRawLength s.length := by
+  have hinv := einv_after before encodeInit (Or.inl rfl)
+  have hu := (update_size s _ hinv).2
+  have hf := final_size _ hinv
+  rw [encodeLength_eq, encodeFinalLength_eq, encodeRawLength_eq, encodeRaw_length]
+  refine ⟨?_, hf, rfl⟩
+  rcases hinv with h | h | h <;> omega
+
+/-! ## malformed input -/
+
+/- Full statement (false of the code, see the counterexample below):
+     decodeAll s = some x → strip s = encodeRaw x
+   i.e. whatever is accepted is canonical RFC 4648 text with interleaved white space. -/
+
+/-- `"A==="` — a dangling sextet followed by three pad characters — is accepted and decodes to
+nothing (`ctx->padding > 2` is tested before the pad character is counted). -/
+theorem malformed_accepted_counterexample :
+    decodeAll [65, 61, 61, 61] = some [] ∧ strip [65, 61, 61, 61] ≠ encodeRaw [] := by decide
+
+/-- The whole class of the defect: any number of full groups followed by `"A==="` is accepted. -/
+theorem malformed_accepted_class (x : Bytes) (h : x.length % 3 = 0) :
+    decodeAll (encodeRaw x ++ [65, 61, 61, 61]) = some x := by
+  rcases triple_pad_accepted x with h1 | h1
+  · exact h1
+  · exact absurd h h1
+
+/-- Outside that class the decoder is exact: if the text (white space removed) does not end in
+three pad characters, acceptance means it is the canonical encoding of the returned bytes; so
+bad characters, missing or surplus padding, padding in the middle, data after padding and
+non-zero pad bits are all rejected. -/
+theorem malformed_rejected_partial (s x : Bytes) (hpad : ¬ ([61, 61, 61] <:+ strip s))
+    (h : decodeAll s = some x) : strip s = encodeRaw x :=
+  decodeAll_sound s x h hpad
+
+/-- Together: for text not ending in three pads, accepted ⇔ canonical. -/
+theorem accepted_iff_canonical_partial (s x : Bytes) (hpad : ¬ ([61, 61, 61] <:+ strip s)) :
+    decodeAll s = some x ↔ strip s = encodeRaw x :=
+  ⟨fun h => decodeAll_sound s x h hpad, decodeAll_canonical s x⟩
+
+/-! ## Basic credentials -/
+open SquidModel.Base64.Basic
+
+/-- Credentials `user ":" pass` (no colon in `user`, no NUL/CR/LF anywhere), base64-encoded in the header
+with optional white space: `decode` yields exactly `user` (lower-cased when `casesensitive` is off) and
+`pass`; an empty password is dropped with the "empty password" denial. -/
+theorem basic_split (cs : Bool) (hdr user pass : Bytes)
+    (hpay : strip (payload hdr) = encodeRaw (user ++ 58 :: pass))
+    (hu : (58 : UInt8) ∉ user)
+    (hctl : ∀ c ∈ user ++ 58 :: pass, c ≠ 0 ∧ c ≠ 10 ∧ c ≠ 13) :
+    Basic.decode cs hdr = some
+      { user := if cs then user else user.map toLower
+        pass := if pass = [] then none else some pass
+        deny := if pass = [] then .emptyPassword else .none
+        valid := !pass.isEmpty } := by
+  have hd := decodeAll_canonical _ _ hpay
+  have hnul : (0 : UInt8) ∉ user ++ 58 :: pass := fun h => (hctl 0 h).1 rfl
+  have hclear : decodeCleartext hdr = some (user ++ 58 :: pass) := by
+    rw [decodeCleartext_some]
+    exact ⟨_, hd, (cstr_of_no_nul _ hnul).symm, fun h => (hctl 13 h).2.2 rfl, fun h => (hctl 10 h).2.1 rfl⟩
+  obtain ⟨t1, t2⟩ := takeWhile_colon user pass hu
+  simp only [Basic.decode, hclear, t1, t2, List.drop_succ_cons, List.drop_zero]
+  have hc : (user ++ 58 :: pass).contains 58 = true := by simp
+  simp only [hc, ↓reduceIte]
+  cases pass with
+  | nil => simp
+  | cons p ps => simp
+
+/-- Credentials without any colon: the whole text is the user name and there is no password. -/
+theorem basic_no_colon (cs : Bool) (hdr user : Bytes)
+    (hpay : strip (payload hdr) = encodeRaw user) (hu : (58 : UInt8) ∉ user)
+    (hctl : ∀ c ∈ user, c ≠ 0 ∧ c ≠ 10 ∧ c ≠ 13) :
+    Basic.decode cs hdr = some
+      { user := if cs then user else user.map toLower, pass := none, deny := .noPassword, valid := false } := by
+  have hd := decodeAll_canonical _ _ hpay
+  have hnul : (0 : UInt8) ∉ user := fun h => (hctl 0 h).1 rfl
+  have hclear : decodeCleartext hdr = some user := by
+    rw [decodeCleartext_some]
+    exact ⟨_, hd, (cstr_of_no_nul _ hnul).symm, fun h => (hctl 13 h).2.2 rfl, fun h => (hctl 10 h).2.1 rfl⟩
+  have hc : user.contains 58 = false := by simpa using hu
+  simp only [Basic.decode, hclear, hc, takeWhile_no_colon user hu, Bool.false_eq_true, ↓reduceIte]
+
+/-- Whatever `decode` extracts is free of NUL, CR and LF (nothing can be smuggled into the
+helper protocol line), the user name has no colon, and a password is never empty. -/
+theorem basic_result_clean (cs : Bool) (hdr : Bytes) (c : Creds) (h : Basic.decode cs hdr = some c) :
+    (∀ b ∈ c.user, b ≠ 0 ∧ b ≠ 10 ∧ b ≠ 13 ∧ b ≠ 58) ∧
+    (∀ p, c.pass = some p → p ≠ [] ∧ ∀ b ∈ p, b ≠ 0 ∧ b ≠ 10 ∧ b ≠ 13) ∧
+    (c.valid = true ↔ c.pass.isSome = true) := by
+  simp only [Basic.decode] at h
+  generalize hcl : decodeCleartext hdr = r at h
+  cases r with
+  | none => simp at h
+  | some clear =>
+    obtain ⟨x, _, hx, h13, h10⟩ := (decodeCleartext_some hdr clear).mp hcl
+    have h0 : (0 : UInt8) ∉ clear := by rw [hx]; exact cstr_no_nul x
+    have clean : ∀ b ∈ clear, b ≠ 0 ∧ b ≠ 10 ∧ b ≠ 13 := fun b hb =>
+      ⟨fun e => h0 (e ▸ hb), fun e => h10 (e ▸ hb), fun e => h13 (e ▸ hb)⟩
+    have huser : ∀ b ∈ clear.takeWhile (· ≠ 58), b ≠ 0 ∧ b ≠ 10 ∧ b ≠ 13 ∧ b ≠ 58 := by
+      intro b hb
+      obtain ⟨hm, hin⟩ := mem_takeWhile' _ _ b hb
+      have := clean b hin
+      exact ⟨this.1, this.2.1, this.2.2, by simpa using hm⟩
+    have huser' : ∀ b ∈ (if cs then clear.takeWhile (· ≠ 58) else (clear.takeWhile (· ≠ 58)).map toLower),
+        b ≠ 0 ∧ b ≠ 10 ∧ b ≠ 13 ∧ b ≠ 58 := by
+      intro b hb
+      cases cs with
+      | true => exact huser b (by simpa using hb)
+      | false =>
+        simp only [Bool.false_eq_true, ↓reduceIte, List.mem_map] at hb
+        obtain ⟨a, ha, rfl⟩ := hb
+        have := huser a ha
+        have t := toLower_not_ctl a this.1 this.2.1 this.2.2.1
+        exact ⟨t.1, t.2.1, t.2.2, toLower_not_colon a this.2.2.2⟩
+    have hpass : ∀ b ∈ (clear.dropWhile (· ≠ 58)).drop 1, b ≠ 0 ∧ b ≠ 10 ∧ b ≠ 13 := fun b hb =>
+      clean b ((List.dropWhile_sublist _).subset ((List.drop_sublist _ _).subset hb))
+    simp only at h
+    by_cases hsep : clear.contains 58 = true
+    · simp only [hsep, ↓reduceIte] at h
+      generalize hp : (clear.dropWhile (· ≠ 58)).drop 1 = p at h hpass
+      cases p with
+      | nil =>
+        simp only [Option.some.injEq] at h
+        subst h
+        exact ⟨huser', by simp, by simp⟩
+      | cons p0 ps =>
+        simp only [Option.some.injEq] at h
+        subst h
+        refine ⟨huser', ?_, by simp⟩
+        intro q hq
+        simp only [Option.some.injEq] at hq
+        subst hq
+        exact ⟨by simp, hpass⟩
+    · simp only [hsep, Bool.false_eq_true, ↓reduceIte, Option.some.injEq] at h
+      subst h
+      exact ⟨huser', by simp, by simp⟩
+
+/-- Provenance of accepted credentials: unless the payload ends in three pad characters (the
+defect above), it is the canonical base64 of some text `x`, and user/password are the split at
+the first colon of the part of `x` before its first NUL. -/
+theorem basic_sound_partial (cs : Bool) (hdr : Bytes) (c : Creds) (h : Basic.decode cs hdr = some c)
+    (hpad : ¬ ([61, 61, 61] <:+ strip (payload hdr))) :
+    ∃ x, strip (payload hdr) = encodeRaw x ∧
+      c.user = (if cs then (cstr x).takeWhile (· ≠ 58) else ((cstr x).takeWhile (· ≠ 58)).map toLower) ∧
+      (∀ p, c.pass = some p → cstr x = (cstr x).takeWhile (· ≠ 58) ++ 58 :: p) := by
+  simp only [Basic.decode] at h
+  generalize hcl : decodeCleartext hdr = r at h
+  cases r with
+  | none => simp at h
+  | some clear =>
+    obtain ⟨x, hd, hx, _, _⟩ := (decodeCleartext_some hdr clear).mp hcl
+    refine ⟨x, decodeAll_sound _ _ hd hpad, ?_, ?_⟩
+    · subst hx
+      simp only at h
+      by_cases hsep : (cstr x).contains 58 = true
+      · simp only [hsep, ↓reduceIte] at h
+        generalize ((cstr x).dropWhile (· ≠ 58)).drop 1 = p at h
+        cases p <;> (simp only [Option.some.injEq] at h; subst h; rfl)
+      · simp only [hsep, Bool.false_eq_true, ↓reduceIte, Option.some.injEq] at h
+        subst h; rfl
+    · subst hx
+      intro p hp
+      simp only at h
+      by_cases hsep : (cstr x).contains 58 = true
+      · simp only [hsep, ↓reduceIte] at h
+        have hsplit := dropWhile_colon_split (cstr x) (by simpa using hsep)
+        generalize hq : ((cstr x).dropWhile (· ≠ 58)).drop 1 = q at h hsplit
+        have hpq : p = q := by
+          cases q with
+          | nil => simp only [Option.some.injEq] at h; subst h; simp at hp
+          | cons q0 qs => simp only [Option.some.injEq] at h; subst h; simpa using hp.symm
+        subst hpq
+        conv => lhs; rw [← List.takeWhile_append_dropWhile (p := (· ≠ 58)) (l := cstr x)]
+        rw [hsplit]
+      · simp only [hsep, Bool.false_eq_true, ↓reduceIte, Option.some.injEq] at h
+        subst h; simp at hp
+
+/- Full statement (false of the code): credentials reach the helper whole or not at all. -/
+/-- `Basic dXNlcjpwYQBzcw==` carries `user:pa\0ss`; decode hands out the password `pa`: the decoded
+text is used as a C string, so everything from the first NUL on is silently dropped. -/
+theorem nul_truncation_counterexample :
+    decodeAll (payload [66, 97, 115, 105, 99, 32, 100, 88, 78, 108, 99, 106, 112, 119, 89, 81, 66, 122, 99, 119, 61, 61])
+      = some [117, 115, 101, 114, 58, 112, 97, 0, 115, 115] ∧
+    Basic.decode true [66, 97, 115, 105, 99, 32, 100, 88, 78, 108, 99, 106, 112, 119, 89, 81, 66, 122, 99, 119, 61, 61]
+      = some ⟨[117, 115, 101, 114], some [112, 97], .none, true⟩ := by decide +kernel
+
+/-- The cleartext buffer of decodeCleartext (`BASE64_DECODE_LENGTH(srcLen)+1` bytes) is never
+overrun: the decoder stores at most `BASE64_DECODE_LENGTH(srcLen)` bytes (also on the failing
+path) and the terminating NUL lands inside the allocation — for every header. -/
+theorem basic_buffer_safe (hdr : Bytes) :
+    (clearMem hdr).written ≤ decodeLength (payload hdr).length ∧
+    (clearMem hdr).written + 1 ≤ (clearMem hdr).size ∧
+    ∀ k, (clearMem hdr).nulAt = some k → k < (clearMem hdr).size :=
+  clearMem_safe hdr
+
+/-! ## the libnettle this build links -/
+
+/-- Same tables, same length macros: the model above is the model of both implementations. -/
+theorem nettle_same_tables :
+    Gen.Base64.nettleDecodeTable = Gen.Base64.decodeTable ∧ Gen.Base64.nettleEncodeTable = Gen.Base64.encodeTable ∧
+    Gen.Base64.nettleMacrosAgree = true :=
+  ⟨nettle_same_decode_table, nettle_same_alphabet, nettle_same_macros⟩
+
+/-! ## non-vacuity -/
+
+/-- "foobar" ↔ "Zm9vYmFy", through two-chunk encoding and bytewise decoding -/
+example : encodeChunks [[102, 111], [111, 98, 97, 114]] = [90, 109, 57, 118, 89, 109, 70, 121] := by decide
+example : decodeChunks [[90], [109], [57], [118], [89, 109, 70, 121]] = some [102, 111, 111, 98, 97, 114] := by decide
+/-- the decoder does reject: bad character, missing padding, non-zero pad bits, data after padding, pad in the middle -/
+example : decodeAll [90, 42, 57, 118] = none := by decide
+example : decodeAll [90, 109, 56] = none := by decide
+example : decodeAll [90, 110, 61, 61] = none := by decide
+example : decodeAll [90, 103, 61, 61, 90, 103, 61, 61] = none := by decide
+example : decodeAll [90, 61, 103, 61] = none := by decide
+/-- the hypothesis of `malformed_rejected_partial` holds for ordinary text, and fails for the witness -/
+example : ¬ ([61, 61, 61] <:+ strip [90, 103, 61, 61]) := by decide
+example : [61, 61, 61] <:+ strip [65, 61, 32, 61, 61] := by decide
+/-- `Basic QWxhZGRpbjpvcGVuIHNlc2FtZQ==` -/
+example : Basic.decode false [66, 97, 115, 105, 99, 32, 81, 87, 120, 104, 90, 71, 82, 112, 98, 106, 112, 118, 99, 71, 86, 117, 73,
+    72, 78, 108, 99, 50, 70, 116, 90, 81, 61, 61]
+    = some ⟨[97, 108, 97, 100, 100, 105, 110], some [111, 112, 101, 110, 32, 115, 101, 115, 97, 109, 101], .none, true⟩ := by
+  decide +kernel
+/-- the hypotheses of `basic_split` are satisfiable (the same header; `payload_of_header` gives the general shape) -/
+example : strip (payload [66, 97, 115, 105, 99, 32, 81, 87, 120, 104, 90, 71, 82, 112, 98, 106, 112, 118, 99, 71, 86, 117, 73,
+    72, 78, 108, 99, 50, 70, 116, 90, 81, 61, 61])
+    = encodeRaw ([65, 108, 97, 100, 100, 105, 110] ++ 58 :: [111, 112, 101, 110, 32, 115, 101, 115, 97, 109, 101]) := by
+  decide +kernel
+example (scheme b64 : Bytes) (hs : ∀ c ∈ scheme, isGraph c = true) (hb : ∀ c ∈ b64, isGraph c = true) :
+    payload (scheme ++ 32 :: b64) = b64 := payload_of_header scheme b64 hs hb
+/-- CR/LF inside the credentials are refused: base64("a:b\r\n") = "YTpiDQo=" -/
+example : Basic.decode true [66, 97, 115, 105, 99, 32, 89, 84, 112, 105, 68, 81, 111, 61] = none := by decide +kernel
 
 end SquidModel.C36
